@@ -241,6 +241,13 @@ def check(code, version, env):
             return []
         if '<>' in code:
             return []      # the '<>' error is raised by the tokenizer glue with a position of its own (3.6-3.8)
+        # the tokenize module is more lenient than the tokenizer behind compile(): names with characters no identifier may
+        # contain (pure-Python \\w+), numbers such as 0_01 (the leading-zero test is off in its C mode): not "tokenized without
+        # error" either
+        import re as _re2
+        if any((t[0] == 'NAME' and not t[1].isidentifier()) or
+               (t[0] == 'NUMBER' and not _re2.fullmatch(ref.Number, t[1])) for t in raw if (t[2], t[3]) <= (err[2], err[3] - 1)):
+            return []
         upto = (err[2], err[3] - 1)
         raw = [t for t in raw if (t[2], t[3]) <= upto]
         if any(t[0] in ('ERRORTOKEN', 'FSTRING_START') or (t[0] == 'STRING' and _is_fstring_literal(t[1])) for t in raw):
